@@ -113,6 +113,9 @@ func (it *Interp) readMont(f *Field, c *Cell) (*Poly, string) {
 	if a := t.SingleAtom(); a != nil && a.Kind == IMont && a.F == f {
 		return a.V, ""
 	}
+	if len(t.mons) > 16 {
+		t = CompleteFamilies(t)
+	}
 	if !provenBelow(t, f.M) {
 		return nil, "operand " + t.String() + " is not provably below the modulus (Fiat precondition)"
 	}
@@ -155,74 +158,215 @@ func (it *Interp) Abort(reason string) { panic(&abort{reason}) }
 func (it *Interp) LoadAgg(c *Cell) Value { return Agg{it.snapshot(c)} }
 
 
-// exclusiveSelect: t is a table look-up Σ_j [D = c_j]·v_j - every monomial carries an equality test of one and the same
-// term D with a constant, the constants are pairwise different (so at most one monomial is non-zero), coefficients are
-// non-negative and every v_j lies in [0, m).
+// eqFamily describes the equality tests [D = c] of one term D with constants that occur in a term.
+type eqFamily struct {
+	d     *IAtom
+	atoms map[int64]*PAtom
+}
+
+// eqFamilies groups the top-level equality tests of t by the (single-atom) term they test.
+func eqFamilies(t *Term) []*eqFamily {
+	byD := map[*IAtom]*eqFamily{}
+	var order []*eqFamily
+	for _, p := range t.PredAtoms() {
+		if p.Kind != PEQZ || len(p.A.mons) > 2 {
+			continue
+		}
+		var d *IAtom
+		k := new(big.Int)
+		sign := 0
+		ok := true
+		for _, am := range p.A.mons {
+			switch {
+			case len(am.preds) > 0:
+				ok = false
+			case am.atom == nil:
+				k = am.c
+			case d == nil && new(big.Int).Abs(am.c).Cmp(bigOne) == 0:
+				d, sign = am.atom, am.c.Sign()
+			default:
+				ok = false
+			}
+		}
+		if !ok || d == nil {
+			continue
+		}
+		v := new(big.Int).Neg(k) // k + D = 0
+		if sign < 0 {
+			v = k // k - D = 0
+		}
+		if !v.IsInt64() {
+			continue
+		}
+		f := byD[d]
+		if f == nil {
+			f = &eqFamily{d: d, atoms: map[int64]*PAtom{}}
+			byD[d] = f
+			order = append(order, f)
+		}
+		f.atoms[v.Int64()] = p
+	}
+	return order
+}
+
+// CompleteFamilies: when t tests one small-range term D against every value of its range (a constant-time table
+// look-up over a window of bits: one masked move per table entry), exactly one of the tests holds.  The test of the
+// largest value is replaced by the complement of the others, which makes "the previous content survives if no entry
+// matches" vanish.
+func CompleteFamilies(t *Term) *Term {
+	var sub *Subst
+	for _, f := range eqFamilies(t) {
+		if !f.d.Lo.IsInt64() || !f.d.Hi.IsInt64() {
+			continue
+		}
+		lo, hi := f.d.Lo.Int64(), f.d.Hi.Int64()
+		if hi-lo < 1 || hi-lo > 31 {
+			continue
+		}
+		// D takes exactly one value of its range: the test of the largest one, where present, is the complement of
+		// all the others (whether or not those occur in t)
+		if f.atoms[hi] == nil {
+			continue
+		}
+		rest := TInt(1)
+		for v := lo; v < hi; v++ {
+			rest = rest.Sub(EQZ(TInt(v).Sub(TAtom(f.d))))
+		}
+		if sub == nil {
+			sub = NewSubst(nil, false)
+			sub.PBind = map[*PAtom]*Term{}
+		}
+		sub.PBind[f.atoms[hi]] = rest
+	}
+	if sub == nil {
+		return t
+	}
+	return sub.Term(t)
+}
+
+// exclusiveSelect: t is a table look-up over the tests [D = c_j] of one term D (at most one of them holds): in every
+// case - exactly one test true, or none - the remaining value lies in [0, m).
 func exclusiveSelect(t *Term, m *big.Int) bool {
-	if len(t.mons) < 2 {
+	fams := eqFamilies(t)
+	if len(fams) != 1 || len(fams[0].atoms) < 2 || len(fams[0].atoms) > 64 {
 		return false
 	}
-	type ent struct {
-		k   string
-		hi  *big.Int
-		key string
+	f := fams[0]
+	// every predicate of t must belong to the family
+	inFam := map[*PAtom]bool{}
+	for _, p := range f.atoms {
+		inFam[p] = true
 	}
-	byConst := map[string]*big.Int{} // selector constant -> largest value selected under it
-	rest := ""
-	for _, mo := range t.mons {
-		if mo.c.Sign() < 0 {
+	for _, p := range t.PredAtoms() {
+		if !inFam[p] {
 			return false
 		}
-		var sel *PAtom
-		for _, p := range mo.preds {
-			if p.Kind == PEQZ {
-				sel = p
-			}
-		}
-		if sel == nil {
-			return false
-		}
-		k := new(big.Int)
-		r := TInt(0)
-		for _, am := range sel.A.mons {
-			if am.atom == nil && len(am.preds) == 0 {
-				k = am.c
-			}
-		}
-		r = sel.A.Sub(TConst(k))
-		// normalise the sign of the non-constant part so that c - D and D - c give the same key
-		neg := false
-		for _, am := range r.sortedMons() {
-			neg = am.c.Sign() < 0
-			break
-		}
-		if neg {
-			r = r.Scale(big.NewInt(-1))
-			k = new(big.Int).Neg(k)
-		}
-		if rest == "" {
-			rest = r.Key()
-		} else if rest != r.Key() {
-			return false
-		}
-		hi := new(big.Int).Set(mo.c)
-		if mo.atom != nil {
-			if mo.atom.Lo.Sign() < 0 {
-				return false
-			}
-			hi.Mul(hi, mo.atom.Hi)
-		}
-		ks := k.String()
-		if old, ok := byConst[ks]; ok {
-			// several monomials under the same selector value add up
-			hi.Add(hi, old)
-		}
-		byConst[ks] = hi
 	}
-	for _, hi := range byConst {
-		if hi.Cmp(m) >= 0 {
+	cases := []*PAtom{nil}
+	for _, p := range f.atoms {
+		cases = append(cases, p)
+	}
+	for _, on := range cases {
+		as := map[*PAtom]bool{}
+		for _, p := range f.atoms {
+			as[p] = p == on
+		}
+		lo, hi := t.substAll(as).Bounds()
+		if lo.Sign() < 0 || hi.Cmp(m) >= 0 {
 			return false
 		}
 	}
 	return true
+}
+
+// DigitBasis rewrites the bit atoms BIT(X, i) of want into the basis of the digit tests that occur in coef: where coef
+// tests a window D = (limb_q(X) >> s) & (2^w - 1) of X against constants, BIT(X, 64q+s+b) = Σ_{v with bit b} [D = v],
+// with the test of the window's largest value written as the complement of the others (exactly one value holds).
+func DigitBasis(want, coef *Term) *Term {
+	sub := NewSubst(nil, false)
+	sub.PBind = map[*PAtom]*Term{}
+	for _, f := range eqFamilies(coef) {
+		d := f.d
+		if d.Kind != IWOp || !d.Hi.IsInt64() || d.Lo.Sign() != 0 {
+			continue
+		}
+		hi := d.Hi.Int64()
+		w := 0
+		for (int64(1)<<uint(w))-1 < hi {
+			w++
+		}
+		if w < 1 || w > 5 || (int64(1)<<uint(w))-1 != hi {
+			continue
+		}
+		// D = and(inner, 2^w-1) or inner itself when the shift leaves exactly w bits
+		inner := TAtom(d)
+		if d.Op == "and" && len(d.Args) == 2 {
+			var other *Term
+			for i, a := range d.Args {
+				if k, ok := a.IsConst(); ok && k.IsInt64() && k.Int64() == hi {
+					other = d.Args[1-i]
+				}
+			}
+			if other == nil {
+				continue
+			}
+			inner = other
+		}
+		shift := 0
+		base := inner
+		if a := inner.SingleAtom(); a != nil && a.Kind == IWOp && a.Op == "shr" && len(a.Args) == 2 {
+			k, ok := a.Args[1].IsConst()
+			if !ok || !k.IsInt64() {
+				continue
+			}
+			shift = int(k.Int64())
+			base = a.Args[0]
+		}
+		la := base.SingleAtom()
+		if la == nil || (la.Kind != ILimb && la.Kind != IByte) {
+			continue
+		}
+		unit, at := 64, 64*la.Idx
+		if la.Kind == IByte {
+			unit, at = 8, 8*la.Idx
+		}
+		if d.Op == "shr" && shift+w != unit {
+			continue // an unmasked shift is a window only at the top of the limb / byte
+		}
+		if d.Op != "shr" && d.Op != "and" {
+			continue
+		}
+		if shift+w > unit {
+			continue
+		}
+		pos := at + shift
+		ev := func(v int64) *Term { return EQZ(TInt(v).Sub(TAtom(d))) }
+		top := TInt(1)
+		for v := int64(0); v < hi; v++ {
+			top = top.Sub(ev(v))
+		}
+		for b := 0; b < w; b++ {
+			bit := BIT(la.T, pos+b)
+			pa := bit.SinglePred()
+			if pa == nil {
+				continue
+			}
+			r := TInt(0)
+			for v := int64(0); v <= hi; v++ {
+				if v>>uint(b)&1 == 0 {
+					continue
+				}
+				if v == hi {
+					r = r.Add(top)
+				} else {
+					r = r.Add(ev(v))
+				}
+			}
+			sub.PBind[pa] = r
+		}
+	}
+	if len(sub.PBind) == 0 {
+		return want
+	}
+	return sub.Term(want)
 }
